@@ -4,6 +4,11 @@ import json, os
 HERE = os.path.dirname(os.path.abspath(__file__))
 ALL = ["C%02d" % i for i in range(1, 21)]
 CHECKS = {
+ "C02": dict(
+  category="exploration", design_ref="DESIGN.md §2 C02",
+  text="Runtime oracle with an executable pipeline model: user filters are non-commuting taggers (output spells the order in which filters ran), built-in flags are judged by independent reference implementations with Markup-ness tracked; every pipeline of <=2 (quick) / <=3 (thorough) expression filters over 14 filter spellings x 7 default_filters settings x 6 page expression_filter settings x 3 values is rendered on real templates, plus random longer pipelines; filter= on def/block/anonymous block/<%text>, buffered defs with buffer_filters and capture() are rendered under the same model; 40 expression spellings containing | } # quotes, newlines and comments inside brackets are rendered under 3 layouts and compared with native eval of the spelling.",
+  note="Trusted: the 40-line pipeline model and reference escapers in checks/c02.py. Not asserted: trailing comma in a filter list; what the buffer does with a non-str value when no filter produced a string.",
+  technique="runtime oracle: tagging filters + executable pipeline model over exhaustively enumerated short pipelines"),
  "C01": dict(
   category="exploration", design_ref="DESIGN.md §2 C01",
   text="The real Lexer runs under a cursor monitor (every cascade step recorded with cursor before/after and nodes appended) on every concatenation of <=k directive-fragment tokens (exhaustive; k=3 quick, k=4/5 thorough); a trace checker decides conservation (steps tile the source, every consumed character is in a node or is documented vanishing syntax, node positions convert back to their offsets). Rendered output is compared with an independent reference scanner for the literal/escape fragment and with by-construction expected output on random long documents. Termination/time is decided on CPU-time growth ratios of adversarial repetition families measured in child processes.",
